@@ -1158,8 +1158,15 @@ func (fr *Frame) atReturn(vs []Val) {
 		return
 	}
 	for _, c := range fr.spec.Asserts {
-		if c.Key != "return" {
+		if c.Key != "return" && !strings.HasPrefix(c.Key, "return#") {
 			continue
+		}
+		if strings.HasPrefix(c.Key, "return#") {
+			want := 0
+			fmt.Sscanf(strings.TrimPrefix(c.Key, "return#"), "%d", &want)
+			if want != fr.returnOrdinal() {
+				continue
+			}
 		}
 		env := fr.envAt(fr.block, fr.idx, fr.cur.st, nil)
 		fr.bindResults(env, vs)
@@ -1339,6 +1346,9 @@ func (fr *Frame) value(v ssa.Value) Val {
 		a := fr.val(x.X)
 		k := fr.val(x.Index)
 		if mt, ok := a.Ty.Underlying().(*types.Map); ok {
+			if e.sortOf(mt.Key()) == "Int" {
+				e.noteIndexTerm(k.T)
+			}
 			dom, val := e.mapComps(mt)
 			has := fmt.Sprintf("(select (select %s %s) %s)", e.get(cur.st, dom), a.T, k.T)
 			has = sAnd("(not (= "+a.T+" 0))", has)
@@ -1395,6 +1405,11 @@ func (fr *Frame) value(v ssa.Value) Val {
 			if _, ok := et.Underlying().(*types.Array); !ok {
 				ec := e.elemComp(et)
 				e.set(cur.st, ec, "(store "+e.get(cur.st, ec)+" "+r+" ((as const (Array Int "+e.sortOf(et)+")) "+e.zero(et)+"))")
+			}
+		}
+		if _, isS := isStruct(et); !isS && e.sliceStaysLocal(x) {
+			if _, isA := et.Underlying().(*types.Array); !isA {
+				e.localCells = append(e.localCells, localCell{e.elemComp(et), r})
 			}
 		}
 		return Val{T: "(mk_slice " + r + " 0 " + l.T + " " + c.T + ")", Ty: x.Type()}
@@ -2021,6 +2036,68 @@ func (e *Engine) closureStaysLocal(mc *ssa.MakeClosure) bool {
 			if sp == nil || !sp.Attrs["inline"] {
 				return false
 			}
+		case *ssa.Store:
+			// the closure is kept in a local variable (captured by another closure): fine if that variable is only
+			// ever loaded to be called
+			if x.Val != ssa.Value(mc) {
+				return false
+			}
+			if !e.funcCellOnlyCalled(x.Addr, 0) {
+				return false
+			}
+		default:
+			return false
+		}
+	}
+	return true
+}
+
+// a cell holding a function value whose every load is used only as the target of a call
+func (e *Engine) funcCellOnlyCalled(addr ssa.Value, depth int) bool {
+	if depth > 3 {
+		return false
+	}
+	switch addr.(type) {
+	case *ssa.Alloc, *ssa.FreeVar:
+	default:
+		return false
+	}
+	refs := addr.Referrers()
+	if refs == nil {
+		return false
+	}
+	for _, r := range *refs {
+		switch x := r.(type) {
+		case *ssa.DebugRef:
+		case *ssa.Store:
+			if x.Addr != addr {
+				return false
+			}
+		case *ssa.UnOp:
+			lr := x.Referrers()
+			if lr == nil {
+				return false
+			}
+			for _, u := range *lr {
+				switch y := u.(type) {
+				case *ssa.DebugRef:
+				case ssa.CallInstruction:
+					if _, isGo := y.(*ssa.Go); isGo || y.Common().Value != ssa.Value(x) {
+						return false
+					}
+				default:
+					return false
+				}
+			}
+		case *ssa.MakeClosure:
+			fn := x.Fn.(*ssa.Function)
+			for i, b := range x.Bindings {
+				if b == addr {
+					if i >= len(fn.FreeVars) || !e.funcCellOnlyCalled(fn.FreeVars[i], depth+1) {
+						return false
+					}
+				}
+			}
 		default:
 			return false
 		}
@@ -2054,4 +2131,90 @@ func faRoot(t string) string {
 		}
 		t = t[i+1 : len(t)-1]
 	}
+}
+
+// a slice value that never leaves this function: only indexed (elements loaded / stored), measured or ranged over
+func (e *Engine) sliceStaysLocal(v ssa.Value) bool {
+	if ok, seen := e.escMemo[v]; seen {
+		return ok
+	}
+	if e.escMemo == nil {
+		e.escMemo = map[ssa.Value]bool{}
+	}
+	e.escMemo[v] = false
+	refs := v.Referrers()
+	if refs == nil {
+		return false
+	}
+	for _, r := range *refs {
+		switch x := r.(type) {
+		case *ssa.DebugRef:
+		case *ssa.IndexAddr:
+			if x.X != v {
+				return false
+			}
+			ir := x.Referrers()
+			if ir == nil {
+				return false
+			}
+			for _, u := range *ir {
+				switch y := u.(type) {
+				case *ssa.UnOp:
+				case *ssa.Store:
+					if y.Addr != ssa.Value(x) {
+						return false
+					}
+				case *ssa.DebugRef:
+				default:
+					return false
+				}
+			}
+		case *ssa.Call:
+			b, ok := x.Call.Value.(*ssa.Builtin)
+			if !ok || (b.Name() != "len" && b.Name() != "cap") {
+				return false
+			}
+		case *ssa.Range:
+		default:
+			return false
+		}
+	}
+	e.escMemo[v] = true
+	return true
+}
+
+// 1-based ordinal of the current Return instruction among the function's returns, in source order
+// (negative numbers count from the end: return#-1 is the last return statement)
+func (fr *Frame) returnOrdinal() int {
+	if fr.block == nil || fr.idx < 0 {
+		return 0
+	}
+	cur := fr.block.Instrs[fr.idx]
+	type rp struct {
+		in  ssa.Instruction
+		pos token.Pos
+		seq int
+	}
+	var all []rp
+	seq := 0
+	for _, b := range fr.fn.Blocks {
+		for _, in := range b.Instrs {
+			if _, ok := in.(*ssa.Return); ok {
+				seq++
+				all = append(all, rp{in, in.Pos(), seq})
+			}
+		}
+	}
+	sort.SliceStable(all, func(i, j int) bool {
+		if all[i].pos != all[j].pos {
+			return all[i].pos < all[j].pos
+		}
+		return all[i].seq < all[j].seq
+	})
+	for i, r := range all {
+		if r.in == cur {
+			return i + 1
+		}
+	}
+	return 0
 }
